@@ -62,8 +62,14 @@ func rmName(i int) string { return fmt.Sprintf("s%d", i+1) }
 
 // rmOpen mounts N IAVL stores + 1 transient store on db and loads version ver (-1 = latest).
 func rmOpen(db dbm.DB, n int, pruning [2]int64, ver int64) (*rmStore, error) {
+	return rmOpenLazy(db, n, pruning, ver, false)
+}
+
+// rmOpenLazy: the same with the multistore's lazy-loading option.
+func rmOpenLazy(db dbm.DB, n int, pruning [2]int64, ver int64, lazy bool) (*rmStore, error) {
 	s := &rmStore{rs: rootmulti.NewStore(db)}
 	s.rs.SetPruning(stypes.NewPruningOptions(pruning[0], pruning[1]))
+	s.rs.SetLazyLoading(lazy)
 	for i := 0; i < n; i++ {
 		k := stypes.NewKVStoreKey(rmName(i))
 		s.keys = append(s.keys, k)
